@@ -427,3 +427,64 @@ func report(k *fw.Case, cfg *Config, rs *RuleSet, c Call, out Outcome, fs []Find
 		})
 	}
 }
+
+// TagEquivalence (C14): "if the tag is never set, behaviour is identical to the corresponding
+// variant without a tag" taken literally for the sequential variants, whose order is
+// deterministic for a given builder and name list: the tagged call (no rule sets the tag) and
+// the tag-less call must start the same rules in the same order, agree on error nil-ness and
+// on the result keys. Large sets with few distinct saliences make tie handling visible.
+func TagEquivalence(k *fw.Case) {
+	r := k.Rng
+	rs := Gen(r, GenOpts{MinRules: 13, MaxRules: 22, FailProb: 0.1, RetProb: 0.3})
+	for _, ru := range rs.Rules {
+		ru.HasSal, ru.Sal = true, int64(r.Intn(3))
+	}
+	rs.Text = rs.Print(r)
+	obs := NewObs()
+	eng, err := NewEngineTarget(obs, rs.Text)
+	if err != nil {
+		k.Inconclusive("rule set does not compile: " + trunc(err.Error(), 200))
+		return
+	}
+	pool, err := NewPoolTarget(obs, rs.Text, 1, 2, 1)
+	if err != nil {
+		k.Inconclusive("rule set does not compile in a pool")
+		return
+	}
+	pairs := [][2]string{{MExecute, MExecuteStop}, {MSelCtl, MSelCtlStop}, {MSelCtlGiven, MSelCtlStopGiven}}
+	for _, pr := range pairs {
+		for _, t := range []*Target{eng, pool} {
+			b := r.Intn(2) == 0
+			names := rs.Names()
+			r.Shuffle(len(names), func(i, j int) { names[i], names[j] = names[j], names[i] })
+			if r.Intn(2) == 0 {
+				names = names[:13+r.Intn(len(names)-12)]
+			}
+			c1 := Call{Method: pr[0], B: b, Names: names, Pool: t.Pool != nil}
+			c2 := Call{Method: pr[1], B: b, Names: names, Pool: t.Pool != nil}
+			o1 := t.Invoke(c1, NewLog())
+			o2 := t.Invoke(c2, NewLog())
+			k.Eval(2)
+			k.Count("tag_equivalence_pairs", 1)
+			v1, v2 := newView(rs, o1.Events), newView(rs, o2.Events)
+			same := len(v1.order) == len(v2.order) && (o1.Err == nil) == (o2.Err == nil) && len(o1.Result) == len(o2.Result)
+			for i := 0; same && i < len(v1.order); i++ {
+				same = v1.order[i] == v2.order[i]
+			}
+			for key := range o1.Result {
+				if _, ok := o2.Result[key]; !ok {
+					same = false
+				}
+			}
+			if !same {
+				m := pr[1]
+				if c1.Pool {
+					m = "pool." + m
+				}
+				k.Violate(m+"/differs-from-tagless", fmt.Sprintf("%s with a tag that no rule sets ran %v (err nil=%v), the variant without a tag %s ran %v (err nil=%v) on the same builder and names", m, v2.names(v2.order), o2.Err == nil, pr[0], v1.names(v1.order), o1.Err == nil),
+					map[string]interface{}{"rule_text": rs.Text, "names": names, "b": b})
+			}
+			k.Distinct("tageq", pr[1], c1.Pool, b, len(names), evString(o2.Events))
+		}
+	}
+}
